@@ -281,15 +281,15 @@ func main() {
 
 	// 4. merge
 	type agg struct {
-		name, rule                                    string
-		exec, skipped, trans, nontrivial              int64
-		maxPoints                                     int
-		states, outcomes                              map[uint64]struct{}
-		truncated                                     bool
-		reason                                        string
-		samples                                       []string
-		extra                                         map[string]int64
-		wall                                          float64
+		name, rule                       string
+		exec, skipped, trans, nontrivial int64
+		maxPoints                        int
+		states, outcomes                 map[uint64]struct{}
+		truncated                        bool
+		reason                           string
+		samples                          []string
+		extra                            map[string]int64
+		wall                             float64
 	}
 	var order []string
 	aggs := map[string]*agg{}
